@@ -153,6 +153,13 @@ func (x *Exec) boundValueRefs(st *State, v Value) {
 func (x *Exec) elemRefSt(st *State, base, idx *Term) *Term {
 	r := x.elemRef(base, idx)
 	x.needElemAxiom = true
+	// instances of "elemref is injective": distinct elements (of the same or of different backing
+	// arrays) are distinct objects
+	st.Assume(Eq(x.D.Fun("elemref_base", SInt, r), base))
+	st.Assume(Eq(x.D.Fun("elemref_idx", SBV64, r), idx))
+	// an element of an array of structs is neither an allocation root (a multiple of refK) nor a
+	// sub-object named by a field constant (residues 1..refK-2): its residue is refK-1
+	st.Assume(Eq(&Term{S: fmt.Sprintf("(mod %s %d)", r.S, refK), Sort: SInt}, IntConstI(refK-1)))
 	switch st.class(base) {
 	case refOld:
 		st.setClass(r, refOld)
